@@ -543,4 +543,10 @@ def selftest(seed):
     except Exception:  # noqa: BLE001
         import traceback
         DEFERRED_ERRORS.append("contract of the direction grid's compiled geometry broken on a small real grid (DirStub assumes it):\n" + traceback.format_exc()[-1500:])
+    try:
+        from harness.c04 import stub_contract          # the rotation grid's side (FullSphereStub assumes it)
+        n += stub_contract()
+    except Exception:  # noqa: BLE001
+        import traceback
+        DEFERRED_ERRORS.append("contract of the rotation grid's compiled geometry broken on a small real grid (FullSphereStub assumes it):\n" + traceback.format_exc()[-1500:])
     return n
